@@ -1,4 +1,148 @@
-/-! Line-protocol driver for property C14 (stub until the model exists). -/
+import CprocVerif.Model.CharLit
+
+/-! Line-protocol driver for property C14 (model of `utf.c` and of the literal handling in
+`expr.c` / `scan.c`).  One output line per input line.
+
+K-A (same protocol as `harness/utf_h.c`, which links `/repo/utf.c` only):
+* `dec <hexbytes>`         → `<codepoint> <n>` | `invalid`      (`utf8dec(&c, s, 4)`, text NUL-terminated)
+* `decn <n> <hexbytes>`    → the same with limit `n`
+* `enc8 <cp>`              → hex bytes | `assert`
+* `enc16 <cp>`             → 4-hex-digit units separated by spaces | `assert`
+* `decblk <hexprefix> <k>` → for every `k`-byte suffix in lexicographic order the 6-hex-digit code
+                             `n << 21 | cp` of `dec <prefix><suffix>`, `ffffff` = invalid, concatenated
+* `enc8blk <start> <cnt>`  → `enc8` of `start .. start+cnt-1` separated by spaces, `!` = assert
+* `enc16blk <start> <cnt>` → `enc16` of the same range, units concatenated, `!` = assert
+
+Model only:
+* `reads <n> <hexbytes>`     → number of bytes `utf8dec` reads
+* `str <target> <hexlit>…`   → `ok <type> <alloc> <unit>…` | `err <kind>`   (adjacent string literal tokens)
+* `chr <target> <hexlit>`    → `ok <type> <u64>` | `err <kind>`             (character constant token)
+* anything else              → `bad-op`
+-/
+
+open CprocVerif CprocVerif.CharLit CprocVerif.Unicode
+
+def hexDigit (c : Char) : Option Nat :=
+  if '0' ≤ c ∧ c ≤ '9' then some (c.toNat - 48)
+  else if 'a' ≤ c ∧ c ≤ 'f' then some (c.toNat - 87)
+  else if 'A' ≤ c ∧ c ≤ 'F' then some (c.toNat - 55)
+  else none
+
+def parseHexBytes (s : String) : Option (List Nat) :=
+  let rec go : List Char → List Nat → Option (List Nat)
+    | [], acc => some acc.reverse
+    | [_], _ => none
+    | a :: b :: r, acc =>
+      match hexDigit a, hexDigit b with
+      | some x, some y => go r ((x * 16 + y) :: acc)
+      | _, _ => none
+  if s == "-" then some [] else go s.toList []
+
+def hexNib (n : Nat) : Char := if n < 10 then Char.ofNat (48 + n) else Char.ofNat (87 + n)
+
+def hexW (w n : Nat) : String :=
+  String.ofList ((List.range w).reverse.map fun i => hexNib (n / 16 ^ i % 16))
+
+def hexBytes (bs : List Nat) : String := String.join (bs.map (hexW 2))
+
+def showDec (r : Option (Nat × Nat)) : String :=
+  match r with
+  | some (c, n) => toString c ++ " " ++ toString n
+  | none => "invalid"
+
+def code (r : Option (Nat × Nat)) : String :=
+  match r with
+  | some (c, n) => hexW 6 (n * 2 ^ 21 + c)
+  | none => "ffffff"
+
+/-- all `k`-byte suffixes in lexicographic order -/
+def suffixes : Nat → List (List Nat)
+  | 0 => [[]]
+  | k + 1 => (List.range 256).flatMap fun b => (suffixes k).map (b :: ·)
+
+def showType : CType → String
+  | .char => "char" | .uchar => "uchar" | .ushort => "ushort" | .int => "int" | .uint => "uint"
+
+def showErr : Err → String
+  | .invalidUtf8 => "invalid-utf8" | .prefixMismatch => "prefix-mismatch" | .multiChar => "multi-char"
+  | .badEscape => "bad-escape" | .badHex => "bad-hex" | .newline => "newline" | .nul => "nul"
+  | .eof => "eof" | .notLiteral => "not-literal" | .assertion => "ASSERT" | .overrun => "OVERRUN"
+
+def findTarget (name : String) : Option Target := alltargs.find? (·.name == name)
+
+def step (line : String) : String :=
+  match line.trimAscii.toString.splitOn " " with
+  | ["dec", h] =>
+    match parseHexBytes h with
+    | some bs => showDec (utf8dec bs 4)
+    | none => "bad-op"
+  | ["decn", n, h] =>
+    match n.toNat?, parseHexBytes h with
+    | some n, some bs => showDec (utf8dec bs n)
+    | _, _ => "bad-op"
+  | ["reads", n, h] =>
+    match n.toNat?, parseHexBytes h with
+    | some n, some bs => toString (utf8decR bs n).2
+    | _, _ => "bad-op"
+  | ["enc8", c] =>
+    match c.toNat? with
+    | some c => if c < 2 ^ 32 then (match utf8enc c with | some bs => hexBytes bs | none => "assert") else "bad-op"
+    | none => "bad-op"
+  | ["enc16", c] =>
+    match c.toNat? with
+    | some c =>
+      if c < 2 ^ 32 then
+        (match utf16enc c with | some us => " ".intercalate (us.map (hexW 4)) | none => "assert")
+      else "bad-op"
+    | none => "bad-op"
+  | ["decblk", h, k] =>
+    match parseHexBytes h, k.toNat? with
+    | some p, some k =>
+      if k ≤ 2 then String.join ((suffixes k).map fun s => code (utf8dec (p ++ s) 4)) else "bad-op"
+    | _, _ => "bad-op"
+  | ["enc8blk", s, n] =>
+    match s.toNat?, n.toNat? with
+    | some s, some n =>
+      if s + n ≤ 2 ^ 32 ∧ n ≤ 65536 then
+        " ".intercalate ((List.range n).map fun i =>
+          match utf8enc (s + i) with | some bs => hexBytes bs | none => "!")
+      else "bad-op"
+    | _, _ => "bad-op"
+  | ["enc16blk", s, n] =>
+    match s.toNat?, n.toNat? with
+    | some s, some n =>
+      if s + n ≤ 2 ^ 32 ∧ n ≤ 65536 then
+        " ".intercalate ((List.range n).map fun i =>
+          match utf16enc (s + i) with | some us => String.join (us.map (hexW 4)) | none => "!")
+      else "bad-op"
+    | _, _ => "bad-op"
+  | "str" :: targ :: lits =>
+    match findTarget targ, lits.mapM parseHexBytes with
+    | some t, some ls =>
+      match stringLiteral t ls with
+      | .ok r => "ok " ++ showType r.ty ++ " " ++ toString r.alloc ++
+          String.join (r.units.map fun u => " " ++ toString u)
+      | .error e => "err " ++ showErr e
+    | _, _ => "bad-op"
+  | ["chr", targ, lit] =>
+    match findTarget targ, parseHexBytes lit with
+    | some t, some l =>
+      match charLiteral t l with
+      | .ok r => "ok " ++ showType r.1 ++ " " ++ toString r.2
+      | .error e => "err " ++ showErr e
+    | _, _ => "bad-op"
+  | _ => "bad-op"
+
+partial def loop (stdin stdout : IO.FS.Stream) : IO Unit := do
+  let line ← stdin.getLine
+  if line.isEmpty then
+    return ()
+  stdout.putStrLn (step line)
+  loop stdin stdout
+
 def main (_args : List String) : IO UInt32 := do
-  IO.eprintln "drv_c14: no model yet"
-  return 2
+  let stdin ← IO.getStdin
+  let stdout ← IO.getStdout
+  loop stdin stdout
+  stdout.flush
+  return 0
